@@ -55,6 +55,34 @@ func (r *RegexpMatcher) Match(s string) bool {
 	return m
 }
 
+// MatchAny is Match for a host that has several spellings: it matches if one of the include rules
+// matches one of them and none of the exclude rules matches any of them.
+func (r *RegexpMatcher) MatchAny(ss ...string) bool {
+	m := r.matchAny(ss)
+	if r.inverse {
+		m = !m
+	}
+	return m
+}
+
+func (r *RegexpMatcher) matchAny(ss []string) bool {
+	for _, x := range r.exclude {
+		for _, s := range ss {
+			if x.MatchString(s) {
+				return false
+			}
+		}
+	}
+	for _, x := range r.include {
+		for _, s := range ss {
+			if x.MatchString(s) {
+				return true
+			}
+		}
+	}
+	return false
+}
+
 func (r *RegexpMatcher) match(s string) bool {
 	for _, x := range r.exclude {
 		if x.MatchString(s) {
